@@ -173,6 +173,17 @@ _l.valid_case = _valid_lookup
 def _split_ops(case):
     return case
 
+# an env-filter with span-scoped directives as a per-layer filter — alone, and as the operand of an `or` whose other operand lets
+# nothing through: its verdict follows the spans the thread is inside NOW (entered and not yet exited), nothing earlier
+# (generator, validity and model are C11's; the executor deploys the filter in the three ways)
+from checks import C11 as _c11
+def _gen_env(rng, tier):
+    n = 400 if tier == 'quick' else 10000
+    for _ in range(n):
+        yield _c11.gen_dyn_case(rng)
+_e = Stream('envscope', 'h_envdyn', mode='modeldyn', gen=_gen_env, nontrivial=_c11.nontrivial_dyn, spec_mode='specdyn')
+_e.valid_case = _c11.valid_dyn
+
 PROPERTY = {
     'manifest': {
         'text': "Lean 4 theorems over the modelled filtering machinery (FilterState bitmap, Filtered::enabled/did_enable, Layered veto clearing the bitmap, per-span FilterMap, interest caching with pick_interest): "
@@ -192,7 +203,7 @@ PROPERTY = {
     'units': [],
     'required_theorems': ['C07.bitmap_clean', 'C07.isolation_partial', 'C07.isolation_spans', 'C07.interest_sound', 'C07.pass_and_deliver', 'C07.probe_witness',
                           'C07.span_map_spec', 'C07.visible_iff_accepted', 'C07.lookups_hide_rejected', 'C07.scope_complete'],
-    'streams': [_a, _b, _c, _l],
+    'streams': [_a, _b, _c, _l, _e],
     'rule': 'one case = a stack of 1-5 layers (plain / global filter leaf / recording layer with a per-layer filter expression of depth <=2 incl. context-dependent closures, and/or/not, Option, reload, Box) and a history of '
             'events, spans, enter/exit/record/close on created spans over 2-8 callsites (so interest caches are hit) in two contexts; stream probe adds enabled!-style probes; non-trivial = a filtered layer present, something delivered and something withheld. Stream lookup: stacks with at least one filtered layer, span trees built with contextual / explicit / root parents, events with all three parent kinds, enter/exit (well nested)/record/close; every receiving layer logs event_span, event_scope, span(id).parent(), span_scope, lookup_current; non-trivial = some scope of length >=2 and two layers shown different things',
     'trusted_base': ['hand-written model Core/Filtering.lean', 'executor h_layers (real Registry + Filtered + FilterExt, synthetic metadata through Dispatch with per-callsite interest caching)', 'hand-written model Core/Lookup.lean', 'executor h_lookup'],
